@@ -59,6 +59,16 @@ def run(ctx):
         "samples": clip_samples([descs[7], descs[len(descs) // 2]]),
         "exhaustive": not capped, "descriptions": len(descs), "routes": ROUTES + ["real params.json -> run()"], "real_params_cases": len(REAL_CASES), "real_run_descriptions": nreal,
     }
+    # NORMAL-mode route (Engine W): re-submissions with other values of what is outside the identifier
+    from . import wcat
+    from .wcheck import run_w
+    wres = run_w(ctx, PROPERTY, [{"scens": wcat.reparam_scenarios(), "policies": ("FIFO", "LIFO", "JOBS"), "bound": 1}], "re-submissions")
+    for v in wres.violations:
+        res.violation(v["key"], v["message"], v["payload"])
+    res.coverage["evaluations"] += wres.coverage["executions"]
+    res.coverage["resubmission_executions"] = wres.coverage["executions"]
+    res.coverage["rule"] += ("; plus (Engine W, real scheduler in the virtual world, all schedules with <= 1 deviation) a job submitted again with another Meta "
+                             "value after a failure, in the same / a later / another experiment: every launched process reads the values of the submission that launched it")
     res.assumptions = ["data paths (DataPath / SerializedPath copying) are not part of the universe"]
     return res
 
@@ -157,6 +167,9 @@ def real_params_route(i):
 
 
 def replay(ctx, payload):
+    if "scen" in payload:
+        from .wcheck import replay as wreplay
+        return wreplay(ctx, dict(payload, props=["C12"]))
     from . import gwork
     gwork.init()
     if "G" in payload and payload.get("route") == "real":
